@@ -152,7 +152,10 @@ theorem denoteBody_limit_free (k : Nat) (f : Node → Res × Bool) :
   | raise e => rfl
   | reraise e => rfl
   | read a r kk ih => simp only [denoteBody]; exact ih _
-  | call n kk ih => simp only [denoteBody]; rw [ih]
+  | call n kk ih =>
+    simp only [denoteBody]
+    have : calleeAt (withMaxdepth env k) f n = calleeAt env f n := rfl
+    rw [this, ih]
 
 theorem denoteN_limit_free (k : Nat) :
     ∀ d n, denoteN (withMaxdepth env k) inp d n = denoteN env inp d n := by
